@@ -36,6 +36,17 @@ class Domain:
     def rootpos_tla(self):
         return "{" + ", ".join("<<%d, %d>>" % p for p in sorted(self.roots)) + "}"
 
+    def mult_point(self, X, Y):
+        for (ix, iy), (rx, ry, size) in self.roots.items():
+            if ix * self.U <= X <= (ix + 1) * self.U and iy * self.U <= Y <= (iy + 1) * self.U:
+                return (rx + (X - ix * self.U) * size / self.U, ry + (Y - iy * self.U) * size / self.U)
+        raise ValueError((X, Y))
+
+    def offset_point(self, X, Y):
+        x, y = self.mult_point(X, Y)
+        L = 4 * max(s for (_, _, s) in self.roots.values())
+        return ((x + L) - L, (y + L) - L)
+
     def real_point(self, X, Y):
         """abstract integer point -> real coordinates (through the root that contains it, by the
         same midpoint recursion the code uses, so that the floats coincide bit for bit)"""
@@ -116,6 +127,13 @@ def apply_op(mesh, dom, op):
         form = op[3] if len(op) > 3 else "tuple"
         p0 = dom.real_point(g[0], g[1])
         p1 = dom.real_point(g[2], g[3])
+        # how a caller may have computed the end points: bit-identical to the mesh's own bisection ("tuple" form), by a
+        # single multiplication k * side / 2^l ("list" form), or with an offset added and removed as the boundary
+        # parametrisation does ("array" form); the last two can differ from the mesh vertices in the last bit
+        if form == "list":
+            p0, p1 = dom.mult_point(g[0], g[1]), dom.mult_point(g[2], g[3])
+        elif form == "array":
+            p0, p1 = dom.offset_point(g[0], g[1]), dom.offset_point(g[2], g[3])
         if flipped:
             p0, p1 = p1, p0
 
